@@ -286,16 +286,25 @@ def contentCall (defaultIndent : Nat) (c : ContentSec) : Except WErr (Option Wri
     onlyKeys c.opts [b!"encoding", b!"indent", b!"line_endings", b!"mimetype"]
     let text : Writer.Arg := match c.content with
       | .str t => .str t | .bytes b => .bytes b | .dict j => .dict j | _ => .other
-    let enc ← asOptText (kw c.opts b!"encoding")
-    let le ← asOptText (kw c.opts b!"line_endings")
-    let mime ← asOptText (kw c.opts b!"mimetype")
+    -- `write_preamble` checks, in this order: the text is a `str`; `mimetype` is `None` or a
+    -- member of a set of strings (any other hashable value is not a member; a `dict` is
+    -- unhashable); `indent` is `None` or a non-negative `int` that is not a `bool`
+    let isStr : Bool := match c.content with | .str _ => true | _ => false
+    let mime : Option Text ← match kw c.opts b!"mimetype" with
+      | .none => pure Option.none
+      | .str t => pure (some t)
+      | .dict _ => if isStr then throw .typeError else throw (.writer .contentError)
+      | _ => if isStr then throw (.writer .optionError) else throw (.writer .contentError)
     -- `indent` defaults to DEFAULT_PREAMBLE_INDENT when the keyword is absent
     let indent : Option (Option Int) ← match c.opts.get b!"indent" with
       | Option.none => pure Option.none
       | some (.int n) => pure (some (some n))
-      | some (.bool b) => pure (some (some (if b then 1 else 0)))
       | some .none => pure (some Option.none)
-      | some _ => throw .typeError
+      | some _ =>
+        -- a bad mimetype and a bad indent are both `DiffXOptionValueError`
+        if !isStr then throw (.writer .contentError) else throw (.writer .optionError)
+    let enc ← asOptText (kw c.opts b!"encoding")
+    let le ← asOptText (kw c.opts b!"line_endings")
     pure (some (.preamble text enc (indent.getD (some (defaultIndent : Int))) le mime))
   | .metadata => do
     -- `format` is remapped to `meta_format`; a raw `meta_format` key is a parameter name too
@@ -314,10 +323,17 @@ def contentCall (defaultIndent : Nat) (c : ContentSec) : Except WErr (Option Wri
     onlyKeys c.opts [b!"encoding", b!"line_endings", b!"type", b!"diff_type"]
     let d : Writer.Arg := match c.content with
       | .bytes b => .bytes b | .str t => .str t | .dict j => .dict j | _ => .other
+    let tyV : PyVal := (((c.opts.filter (fun p => p.1 == b!"type" || p.1 == b!"diff_type")).getLast?).map (·.2)).getD .none
+    -- `write_diff` checks that the content is `bytes`, then that `diff_type` is `None` or a
+    -- member of a set of strings (a `dict` is unhashable)
+    let isBytes : Bool := match c.content with | .bytes _ => true | _ => false
+    let ty : Option Text ← match tyV with
+      | .none => pure Option.none
+      | .str t => pure (some t)
+      | .dict _ => if isBytes then throw .typeError else throw (.writer .contentError)
+      | _ => if isBytes then throw (.writer .optionError) else throw (.writer .contentError)
     let enc ← asOptText (kw c.opts b!"encoding")
     let le ← asOptText (kw c.opts b!"line_endings")
-    let tyV : PyVal := (((c.opts.filter (fun p => p.1 == b!"type" || p.1 == b!"diff_type")).getLast?).map (·.2)).getD .none
-    let ty ← asOptText tyV
     pure (some (.diff d ty enc le))
 
 /-- one step of the DOM writer's walk: the writer call for a section, `none` when
